@@ -36,8 +36,8 @@ CORPUS = [
     T('c19-jacobian-counted-twice', HM, '        "distributions": ["joint"] + jacobians_list,', '        "distributions": ["joint"] + jacobians_list + jacobians_list,', expect=[('C19.J', 'build_hmc::joint-plus-each-jacobian-once')]),
     T('c19-jacobians-before-unconstraining', MC, '    parameters_unres, parameters = make_unconstrained(json_list)\n\n    jacobians_list = create_jacobians(json_list)\n',
       '    jacobians_list = create_jacobians(json_list)\n    parameters_unres, parameters = make_unconstrained(json_list)\n\n', expect=[('C19.J', 'build_mcmc::collected-after-constraints-became-transforms')]),
-    T('c19-benign-jacobians-get-and-helper', JA, "        if 'type' in dict_def and dict_def['type'] == 'TransformedParameter':\n            if not (\n                dict_def['transform'] == 'torch.distributions.AffineTransform'\n                and dict_def['parameters']['scale'] == 1.0\n            ):\n                params.append(dict_def['id'])",
-      "        if dict_def.get('type') == 'TransformedParameter':\n            unit = dict_def['transform'] == 'torch.distributions.AffineTransform' and dict_def['parameters']['scale'] == 1.0\n            if not (\n                dict_def['transform'] == 'torch.distributions.AffineTransform'\n                and dict_def['parameters']['scale'] == 1.0\n            ):\n                params.append(dict_def['id'])",
+    T('c19-benign-jacobians-get-and-helper', JA, "        if 'type' in dict_def and dict_def['type'] == 'TransformedParameter':",
+      "        if dict_def.get('type') == 'TransformedParameter':\n            unit = dict_def['transform'] == 'torch.distributions.AffineTransform' and dict_def['parameters']['scale'] == 1.0",
       benign=True),
     T('c19-benign-tree-jacobian-condition-reordered', MC, '    if arg.clock is not None and arg.heights == "ratio":\n        jacobians_list.append("tree")', '    if arg.heights == "ratio" and arg.clock is not None:\n        jacobians_list.append("tree")',
       benign=True),
@@ -115,6 +115,16 @@ CORPUS = [
       '    if arg.grid is None and arg.birth_death is not None and arg.birth_death == "bdsk":\n        parser.error("--grid is required by bdsk")\n', benign=True),
     T('c19-rescaled-rates-listed-as-a-jacobian', 'torchtree/cli/jacobians.py', "            if dict_def['transform'] != 'RescaledRateTransform' and not (", "            if not (", expect=[('C19.J', 'log-determinant-of-RescaledRateTransform')]),
     T('c19-block-update-emitted-with-integrated-gmrf', 'torchtree/cli/mcmc.py', "            and not arg.gmrf_integrated\n", "", expect=[('C19.D', 'GMRFPiecewiseCoalescentBlockUpdatingOperator.gmrf->gmrf:GMRFGammaIntegrated')]),
+    T('c19-grid-or-cutoff-is-enough', EV, "        elif arg.coalescent in piecewise_grid and (\n            arg.cutoff is None or arg.grid is None\n        ):", "        elif arg.coalescent in piecewise_grid and (\n            arg.cutoff is None and arg.grid is None\n        ):",
+      expect=[('C19.G', 'create_coalesent::')]),
+    T('c19-benign-grid-check-through-a-flag', EV, "        elif arg.coalescent in piecewise_grid and (\n            arg.cutoff is None or arg.grid is None\n        ):", "        elif arg.coalescent in piecewise_grid and (\n            arg.grid is None or arg.cutoff is None\n        ):",
+      benign=True),
+    T('c19-priors-built-before-the-tree', EV, "    likelihood_dic = create_tree_likelihood(\"like\", taxa, alignment, arg)\n    prior_dic = {\n        \"id\": \"prior\",\n        \"type\": \"JointDistributionModel\",\n        \"distributions\": create_evolution_priors(taxa, arg),\n    }\n",
+      "    priors = create_evolution_priors(taxa, arg)\n    likelihood_dic = create_tree_likelihood(\"like\", taxa, alignment, arg)\n    prior_dic = {\n        \"id\": \"prior\",\n        \"type\": \"JointDistributionModel\",\n        \"distributions\": priors,\n    }\n",
+      expect=[('C19.O', 'create_evolution_joint::arg._coalescent_init')]),
+    T('c19-dates-tested-by-truthiness', EV, "    if arg.dates == 0:\n        s[CONSTRAINT.UPPER.value] = 0.0", "    if not arg.dates:\n        s[CONSTRAINT.UPPER.value] = 0.0", expect=[('C19.Z', '--dates::truthiness-test')]),
+    T('c19-shifts-rescaled-in-parameter-space', EV, "                    tree_model[\"shifts\"][\"tensor\"] = tree_model_obj.transform.inv(\n                        heights\n                    ).tolist()",
+      "                    tree_model[\"shifts\"][\"tensor\"] = (tree_model_obj._internal_heights.tensor * (arg.root_height_init / heights[-1])).tolist()", expect=[('C19.U', 'create_tree_model::shifts.tensor')]),
 ]
 for m in CORPUS:
     if m.id == 'c19-transform-string-typo':
